@@ -341,6 +341,31 @@ func terminatorLabelNeedsASibling(c *eng.Ctx) {
 			}
 		}
 		c.Check(n >= 5, "terminator-tests-found", nil, nil, "the readers compare labels with the terminator", fmt.Sprintf("%d comparisons", n))
+		// the byte searches inside a node step over the terminator slot: a search for the real label 0xff must not match the
+		// terminator of a node that has no such label (Get(K + "\xff") would be answered with the value of K)
+		for _, fk := range []string{trieP + "labelVector.Search", trieP + "labelVector.SearchGreaterThan"} {
+			g := p.Func(fk)
+			if g == nil || g.Blocks == nil {
+				continue
+			}
+			has := false
+			for _, b := range eng.BlocksT(g) {
+				for _, in := range b.Instrs {
+					if bo, ok := in.(*ssa.BinOp); ok && (bo.Op == token.EQL || bo.Op == token.NEQ) {
+						for _, side := range []ssa.Value{bo.X, bo.Y} {
+							if k, isC := eng.ConstInt(side); isC && k == 0xff {
+								if bt, isB := side.Type().Underlying().(*types.Basic); isB && bt.Kind() == types.Uint8 {
+									has = true
+								}
+							}
+						}
+					}
+				}
+			}
+			c.Check(has, "terminator-stepped-over:"+fk, nil, g,
+				"a search for a label byte inside a node leaves the terminator slot out (it tests for the terminator and starts behind it): the terminator shares its byte value with the real label 0xff",
+				"the function searches the node's labels without a terminator test")
+		}
 	})
 }
 
@@ -2273,4 +2298,74 @@ func mayReturnEmpty(p *eng.Prog, g *ssa.Function) bool {
 		return true
 	}
 	return false
+}
+
+// ---- F72 (C09): a failed read of a metric's postings fails the id generation -----------------------------------------------------------------
+//
+// createSeriesID derives the next series id of a metric from the sequence cache or, on a cold cache, from the maximum of the
+// metric's postings.  When that read fails the function must not hand out an id at all: "0" is the id of the metric's first
+// series, the new tag set would share it and the sequence would restart from there.
+func failedPostingsReadFailsTheID(c *eng.Ctx) {
+	p := c.P
+	c.Rule("ERRFLOW", midT+".createSeriesID{a failed postings read yields no id}", func() {
+		f := c.Fn(midT + ".createSeriesID")
+		reads := c.Some(f, invokeOn(".metricInverted", "getSeriesIDs"), "metricInverted.getSeriesIDs(metric)")
+		for i, rd := range reads {
+			_, errEdges := eng.ErrCheckEdges(f, rd.Instr.(ssa.Value))
+			c.Check(len(errEdges) >= 1, fmt.Sprintf("read-error-tested[%d]", i), rd.Instr, f, "the error of the postings read is tested", "the error result is not examined")
+			for j, e := range errEdges {
+				first := e.B.Succs[e.Succ].Instrs[0]
+				var bad ssa.Instruction
+				for _, b := range f.Blocks {
+					r, ok := b.Instrs[len(b.Instrs)-1].(*ssa.Return)
+					if !ok {
+						continue
+					}
+					if _, reach := eng.PathExists(eng.PathQuery{Fn: f, After: first, Target: func(x ssa.Instruction) bool { return x == ssa.Instruction(r) }}); !reach && first != ssa.Instruction(r) {
+						continue
+					}
+					// the exit behind the failed read reports the failure: an error result that is not the nil constant
+					okErr := len(r.Results) >= 2 && !eng.ReturnsNilError(r)
+					if !okErr {
+						bad = r
+					}
+				}
+				detail := ""
+				if bad != nil {
+					detail = "behind the failed read the function returns at " + p.Pos(bad.Pos()) + " with an id and no error"
+				}
+				c.Check(bad == nil, fmt.Sprintf("no-id-after-a-failed-read[%d,%d]", i, j), rd.Instr, f,
+					"when the postings of the metric cannot be read there is no way to know the highest series id in use: the id generation fails (the row is not written) instead of handing out 0, which another tag set of the metric already has",
+					detail)
+			}
+		}
+		// and GenSeriesID passes the failure on to GetOrCreateValue's callback result
+		g := c.Fn(midT + ".GenSeriesID")
+		n := 0
+		seen := map[ssa.Instruction]bool{}
+		for _, cl := range closuresT(g) {
+			for _, s := range p.Sites(cl, eng.AnyCallTo(midT+".createSeriesID")) {
+				if seen[s.Instr] {
+					continue
+				}
+				seen[s.Instr] = true
+				n++
+				h := s.Instr.Parent() // the literal itself, or a helper it hands the work to
+				_, errEdges := eng.ErrCheckEdges(h, s.Instr.(ssa.Value))
+				passedOn := false
+				if len(errEdges) == 0 {
+					// `return index.createSeriesID(metric)`: both results are handed to the caller as they are
+					for _, b := range h.Blocks {
+						if r, ok := b.Instrs[len(b.Instrs)-1].(*ssa.Return); ok && len(r.Results) == 2 {
+							if e, isE := eng.Unwrap(r.Results[1]).(*ssa.Extract); isE && e.Tuple == s.Instr.(ssa.Value) {
+								passedOn = true
+							}
+						}
+					}
+				}
+				c.Check(len(errEdges) >= 1 || passedOn, fmt.Sprintf("caller-tests-the-error[%d]", n), s.Instr, h, "the caller of createSeriesID examines its error (or returns it unchanged)", "the error result is dropped")
+			}
+		}
+		c.Check(n >= 1, "caller-found", nil, g, "GenSeriesID creates ids through createSeriesID", "")
+	})
 }
